@@ -403,6 +403,42 @@ UNKNOWN_DEPTH = 2
 UNKNOWN_LIST_ITEMS = 2
 
 
+_SUB = {"type": "string", "minLength": 1}
+SCHEMA_KEYWORDS = [
+    ("additionalProperties", [("true", True), ("false", False), ("schema", dict(_SUB)), ("empty-schema", {})]),
+    ("items", [("schema", dict(_SUB)), ("true", True)]),
+    ("additionalItems", [("schema", dict(_SUB)), ("false", False)]),
+    ("propertyNames", [("schema", {"pattern": "^[a-z]+$"})]),
+    ("patternProperties", [("map-of-schemas", {"^x-": dict(_SUB)})]),
+    ("anyOf", [("array-of-schemas", [dict(_SUB), {"type": "null"}])]),
+    ("oneOf", [("array-of-schemas", [dict(_SUB), {"type": "integer"}])]),
+    ("allOf", [("array-of-schemas", [{"required": ["a"]}])]),
+    ("not", [("schema", {"type": "null"})]),
+    ("if", [("schema", {"required": ["a"]})]),
+    ("then", [("schema", {"required": ["b"]})]),
+    ("else", [("schema", {})]),
+    ("$defs", [("map-of-schemas", {"s": dict(_SUB)})]),
+    ("definitions", [("map-of-schemas", {"s": dict(_SUB)})]),
+    ("dependentSchemas", [("map-of-schemas", {"a": {"required": ["b"]}})]),
+    ("unevaluatedProperties", [("false", False), ("schema", dict(_SUB))]),
+    ("minProperties", [("integer", 1)]),
+    ("maxProperties", [("integer", 9)]),
+    ("enum", [("array", [{"a": 1}, None, 3])]),
+    ("const", [("object", {"a": 1}), ("null-is-a-value", 0)]),
+    ("default", [("object", {"a": "x"}), ("false", False)]),
+    ("examples", [("array", [{"a": "x"}])]),
+    ("title", [("string", "T")]),
+    ("description", [("string", "D")]),
+    ("$schema", [("string", "https://json-schema.org/draft/2020-12/schema")]),
+    ("$id", [("string", "urn:x")]),
+    ("$ref", [("string", "#/$defs/s")]),
+]       # "type" is not varied: the MCP schema pins the type of a tool input schema to the string "object"
+
+
+def is_schema_like(declared_names) -> bool:
+    return "properties" in declared_names and ("type" in declared_names or "required" in declared_names)
+
+
 def name_kind(k: str) -> str:
     """Class of a member name, in the vocabulary of UNKNOWN_NAMES / RESERVED_NAMES."""
     if k in RESERVED_NAMES:
@@ -557,6 +593,19 @@ def wire_objects(cls: type, depth: int = 2, pairs: bool = False) -> List[Tuple[s
         for kind, name in UNKNOWN_NAMES:
             if kind in UNKNOWN_PROBE_NAMES and name not in declared_here:
                 out.append((f"unknown:{kind}=alias-named-keys@{at}", with_member(full_w, path, name, alias_named_keys())))
+    # 6. JSON-Schema keywords on models that ARE a JSON Schema (they declare properties + type/required): the keyword
+    #    grammar, not the Python class, says which values are valid - additionalProperties, items, ... take a schema object,
+    #    combinators an array of schemas.  Emitted whether or not the class happens to declare a member of that name.
+    for path, declared_here in model_positions([cls], full_w):
+        node = full_w
+        for p_ in path:
+            node = node[p_]
+        if not is_schema_like(declared_here):
+            continue
+        at = "/".join(str(p_) for p_ in path) or "<top>"
+        for kw, forms in SCHEMA_KEYWORDS:
+            for fname, val in forms:
+                out.append((f"schema-keyword:{kw}={fname}@{at}", with_member(full_w, path, kw, val)))
     for kind, name in UNKNOWN_NAMES + [("reserved:" + n, n) for n in RESERVED_NAMES]:
         if name not in declared:
             out.append((f"unknown:{kind}=scalar@<top>/min", with_member(min_w, (), name, UNKNOWN_VALUES[0][1])))
